@@ -274,7 +274,7 @@ def rf31b(run):
 # ---------------------------------------------------------------------------------------------
 
 GOOD_CALLS = ('MIR_malloc', '_MIR_publish_code', '_MIR_get_bb_thunk', 'get_bb_version')
-GOOD_FIELDS = ('call_addr', 'machine_code', 'addr')
+GOOD_FIELDS = ('call_addr', 'machine_code', 'addr', 'thunk')   # thunk: bb_version.thunk, the basic-block thunk (D97)
 
 
 def _origin(tu, f, e, depth=0, seen=None):
